@@ -429,3 +429,8 @@ PLAN["C15"]["quick"]["tests"].append({"run": "TestC15Detach", "shards": 2, "chec
 PLAN["C15"]["thorough"]["tests"].append({"run": "TestC15Detach", "shards": 2, "checks": 500, "timeout": 840, "env": {"VERIF_NOSHRINK": 1}})
 PLAN["C15"]["rule"] += ("; TestC15Detach: stack programs (real controller, RF 2-3) in which data connections are closed by the replica side while idle or with a request in flight, "
                         "requests stall beyond or complete after their deadline and pings fail: the replica is detached (within 30 s at the latest) and the request in flight ends")
+
+PLAN["C08"]["quick"]["tests"].append({"run": "TestC08Extents", "shards": 2, "checks": 3, "timeout": 110, "shrink": "5s"})
+PLAN["C08"]["thorough"]["tests"].append({"run": "TestC08Extents", "shards": 2, "checks": 60, "timeout": 840, "shrink": "30s"})
+PLAN["C08"]["rule"] += ("; TestC08Extents: the same enumeration over pre-states whose files consist of 1030-1140 separate extents (more than one FIEMAP batch), victim and reopening inspector with "
+                        "space reclamation on")
